@@ -9,6 +9,7 @@ dispatcher is judged as a history over the delivery log.
 import collections
 import copy
 import gc
+import json
 import sys
 import weakref
 
@@ -95,6 +96,7 @@ class Actors:
         elif heq == 'unhashable':   # __eq__ without __hash__ (a dataclass)
             ns['__eq__'] = lambda a, b: a is b
             ns['__hash__'] = None
+        self.decos = {}
         self.HRoot = type('HRoot', (), ns)
         self.Mixin = type('Mixin', (), {'helper': lambda self: None})
         self.classes = []
@@ -137,8 +139,14 @@ class Actors:
                 cls = desper.event_handler()(cls)
                 own = {}
             elif deco:
-                cls = desper.event_handler(*deco.get('names', []),
-                                           **deco.get('maps', {}))(cls)
+                dkey = json.dumps(deco, sort_keys=True)
+                if config.get('shared_deco') and dkey in self.decos:
+                    # one decorator object applied to several classes
+                    interp.probes['decorator_object_reused'] += 1
+                else:
+                    self.decos[dkey] = desper.event_handler(
+                        *deco.get('names', []), **deco.get('maps', {}))
+                cls = self.decos[dkey](cls)
                 own = {n: n for n in deco.get('names', [])}
                 own.update(deco.get('maps', {}))
             else:
@@ -148,6 +156,16 @@ class Actors:
             self.emap.append(inherited)
             self.own.append(dict(inherited) if isinstance(deco, dict)
                             else None)
+        tn = config.get('tuple_names')
+        if tn:
+            def conv(k):
+                if k in EVENTS:
+                    return (k, 'x') if tn == 2 else (k, 'x', 'y')
+                return k
+            for cls in self.classes:
+                if '__events__' in vars(cls):
+                    cls.__events__ = {conv(k): v
+                                      for k, v in cls.__events__.items()}
 
     def mapping(self, i, own=None):
         own = self.own if own is None else own
@@ -183,6 +201,9 @@ class Actors:
         computed from the decorator arguments alone."""
         for i, cls in enumerate(self.classes):
             real = getattr(cls, '__events__', None)
+            if real and self.config.get('tuple_names'):
+                real = {(k[0] if isinstance(k, tuple) else k): v
+                        for k, v in real.items()}
             want = self.emap[i]
             if (real or {}) != want:
                 fail('C03', 'base_mapping_changed',
@@ -277,7 +298,7 @@ class Interp:
         (monkey-patching, a reloaded module) while no instance of the class
         or of its subclasses is registered: registrations made afterwards
         call the new function."""
-        _, ci, mname = op
+        ci, mname = op[1], op[2]
         if self.depth or self.queue or ci >= len(self.actors.classes):
             return 'skip'
         fam = {ci}
@@ -286,7 +307,14 @@ class Interp:
                 fam.add(i)
         busy = set(self.registered) | set(self.eids) | self.held | \
             self.limbo | self.limbo_unreg | self.die_later
-        if any(self.cfg['handlers'][s] in fam for s in busy):
+        live = len(op) > 3 and op[3] == 'live'
+        if live:
+            # ... or while instances are registered, each of which is then
+            # registered again (a module reload re-registering its
+            # handlers): from then on the new function is the callback
+            if self.is_world or (busy - set(self.registered)):
+                return 'skip'
+        elif any(self.cfg['handlers'][s] in fam for s in busy):
             return 'skip'
         self.nrebind = getattr(self, 'nrebind', 0) + 1
         owner = 1000 + self.nrebind
@@ -298,8 +326,17 @@ class Interp:
             return it.retval(self)
         method.__name__ = mname
         method._owner = owner
+        if mname in self.cfg.get('eqc', []):
+            method = EqCallable(method)
         setattr(self.actors.classes[ci], mname, method)
         self.probes['callback_rebound_on_class'] += 1
+        if live:
+            for s_ in sorted(self.registered):
+                if self.cfg['handlers'][s_] in fam and self.handlers.get(s_) \
+                        is not None:
+                    self.d.add_handler(self.handlers[s_])
+                    self.touch(s_)
+                    self.probes['re-registered_after_live_rebind'] += 1
 
     def op_redeco(self, op):
         """The decorator applied again to a class whose instances have been
@@ -792,6 +829,123 @@ class Interp:
                       f'not called the registered listener when it returned '
                       f'(calls in order: {calls[:5]}...{calls[-3:]})')
 
+    def op_mega_burst(self, op):
+        """n events postponed in a dispatcher of its own (n beyond a
+        million): released all, in order."""
+        if self.cbstack or self.depth:
+            return 'skip'
+        n = op[1]
+        d2 = self.desper.EventDispatcher()
+        state = {'count': 0, 'bad': None}
+
+        class H:
+            def e(self, k):
+                if k != state['count'] and state['bad'] is None:
+                    state['bad'] = (state['count'], k)
+                state['count'] += 1
+        H.__events__ = {'e': 'e'}
+        h = H()
+        d2.add_handler(h)
+        d2.dispatch_enabled = False
+        resume = kernel.StepBudget.pause()
+        try:
+            for k in range(n):
+                d2.dispatch('e', k)
+            d2.dispatch_enabled = True
+        except Exception as e:
+            self.fail('C04', 'enable_raised', f'{n} postponed events: '
+                      f'{type(e).__name__}: {e}')
+        finally:
+            resume()
+        self.probes['burst>2**20'] += n > 2 ** 20
+        if state['bad'] is not None or state['count'] != n:
+            self.fail('C04', 'lost', f'{n} postponed events: {state["count"]} '
+                      f'delivered, first out of order (position, event): '
+                      f'{state["bad"]}')
+
+    def op_raise_then_drop(self, op):
+        """A callback raises, the exception escapes dispatch() and the
+        program handles it; then the program lets go of that listener: it
+        is gone at once (no collection needed), like any other."""
+        if self.cbstack or self.depth:
+            return 'skip'
+        d2 = self.desper.EventDispatcher()
+        dead = []
+
+        class Oops(Exception):
+            pass
+
+        class H:
+            def e(self):
+                raise Oops('listener failed')
+
+            def __del__(self):
+                dead.append(1)
+        H.__events__ = {'e': 'e'}
+        h = H()
+        d2.add_handler(h)
+        try:
+            d2.dispatch('e')
+        except Oops:
+            pass                # (handled; nothing of it is kept)
+        del h
+        self.probes['listener_dropped_after_its_exception_escaped'] += 1
+        if not dead:
+            self.fail('C10', 'kept_alive', 'a listener whose exception '
+                      'escaped dispatch() and was handled by the program is '
+                      'still alive after the program dropped it (something '
+                      'of the failed dispatch keeps it)')
+
+    def op_plain_queue(self, op):
+        """A dispatcher of its own: events without any argument (and one
+        with) are postponed and released - each delivered once, in order,
+        with nothing added."""
+        if self.cbstack or self.depth:
+            return 'skip'
+        d2 = self.desper.EventDispatcher()
+        calls = []
+        np_, nq = self.evname('a'), self.evname('b')
+
+        class H:
+            def p(self, *a, **k):
+                calls.append(('p', a, k))
+
+            def q(self, *a, **k):
+                calls.append(('q', a, k))
+        H.__events__ = {np_: 'p', nq: 'q'}
+        h = H()
+        d2.add_handler(h)
+        d2.dispatch_enabled = False
+        seq = op[1]
+        want = []
+        for k, c in enumerate(seq):
+            if c == 'p':
+                d2.dispatch(np_)
+                want.append(('p', (), {}))
+            elif c == 'q':
+                d2.dispatch(nq, k)
+                want.append(('q', (k,), {}))
+            else:
+                d2.dispatch(nq, k=k)
+                want.append(('q', (), {'k': k}))
+        if calls:
+            self.fail('C04', 'delivered_while_disabled', f'a dispatcher of '
+                      f'its own delivered {calls} while disabled')
+        try:
+            with kernel.budget(OP_BUDGET):
+                d2.dispatch_enabled = True
+        except SimHang as e:
+            self.fail('C04', 'hang', f'release: {e}')
+        except Exception as e:
+            self.fail('C04', 'enable_raised', f'releasing {len(seq)} events '
+                      f'(some without arguments, names {np_!r}/{nq!r}) '
+                      f'raised {type(e).__name__}: {e}')
+        self.probes['postponed_events_without_arguments'] += 1
+        if calls != want:
+            self.fail('C04', 'order' if sorted(map(repr, calls)) == sorted(
+                map(repr, want)) else 'lost', f'postponed {want}, released '
+                f'{calls} (names {np_!r}/{nq!r})')
+
     def op_noweak(self, op):
         """A handler of a type that cannot be weakly referenced (a tuple
         subclass, say a NamedTuple): registering it is refused (TypeError) -
@@ -923,6 +1077,11 @@ class Interp:
         """The program names its events with a str-mixin Enum (equal to and
         hashing like the plain strings the handlers declare; str() of a
         member is 'Ev.a', not 'a')."""
+        tn = self.cfg.get('tuple_names')
+        if tn:
+            # event names that are tuples (('collision', 'wall'))
+            self.probes['tuple_event_name'] += 1
+            return (ev, 'x') if tn == 2 else (ev, 'x', 'y')
         if not self.cfg.get('enum_names'):
             return ev
         E = getattr(self, '_enum', None)
@@ -1363,6 +1522,10 @@ def gen_config(prop, rng, allow_base2=False):
             cfg['teardown'] = True
     if prop == 'C03' and rng.random() < .1:
         cfg['enum_names'] = True
+    elif prop == 'C04' and rng.random() < .08:
+        cfg['tuple_names'] = rng.choice([2, 3])
+    if prop == 'C03' and rng.random() < .3:
+        cfg['shared_deco'] = True
     return cfg
 
 
@@ -1533,6 +1696,20 @@ def generate(prop, run_seed, tier='quick', tolerate=frozenset()):
             block.append(['dispatch', e, state['token'], 1])
         k = crng.randint(0, len(ops))
         ops[k:k] = block
+    if prop == 'C03' and cfg['dkind'] == 'plain' and crng.random() < (
+            .5 if cfg.get('eqc') else .04):
+        # a callback rebound while instances are registered, which are
+        # then registered again
+        ci = crng.randrange(len(cfg['hclasses']))
+        slots = list(range(len(cfg['handlers'])))
+        block = [['add_handler', s] for s in slots if crng.random() < .7]
+        block.append(['rebind', ci, crng.choice(
+            cfg.get('eqc') or METHODS[:5]), 'live'])
+        for e in EVENTS[:3]:
+            state['token'] += 1
+            block.append(['dispatch', e, state['token'], 1])
+        k = crng.randint(0, len(ops))
+        ops[k:k] = block
     if prop == 'C03' and crng.random() < .06:
         # a listener is removed, dies, and a new one (created right away,
         # most likely at the same address) is registered
@@ -1547,6 +1724,15 @@ def generate(prop, run_seed, tier='quick', tolerate=frozenset()):
     if prop == 'C10' and crng.random() < .08:
         ops.insert(crng.randint(0, len(ops)),
                    ['noweak', crng.choice(EVENTS[:3])])
+    # (['mega_burst', n] - more than 2**20 pending events - is never
+    # generated: the release pops the head of a list, which is quadratic and
+    # takes minutes at that size; seeded change S10-C04-2 needs exactly that
+    # and is recorded as not caught. The op stays for replays by hand.)
+    if prop == 'C10' and crng.random() < .05:
+        ops.insert(crng.randint(0, len(ops)), ['raise_then_drop'])
+    if prop == 'C04' and crng.random() < .06:
+        ops.insert(crng.randint(0, len(ops)), ['plain_queue', [
+            crng.choice('ppqk') for _ in range(crng.randint(1, 6))]])
     if prop == 'C03' and crng.random() < .02:
         ops.insert(crng.randint(0, len(ops)),
                    ['deep_chain', crng.choice([70, 260, 340, 400, 430])])
